@@ -10,9 +10,10 @@
     * `parked_covered`, `will_park_covered` (E), `saw_running_covered` (G), for 0 < conc
     * `no_waiter_stranded`                        idle ∧ 0 < conc → nobody parked
   `0 < conc` concerns the state in question only; earlier values of conc are arbitrary.
-  Known finding (`no_waiter_stranded_conc0_false`, `parked_covered_conc0_false`, `exConc0`): with the
-  concurrency limit 0 (TunePool(2^32) stores 0) no state is dispatchable, nobody ever owes anything,
-  and a Pause strands a waiter that saw running ∧ Len() > 0.
+  The hypothesis is needed (`no_waiter_stranded_conc0_false`, `parked_covered_conc0_false`, `exConc0`): with a
+  concurrency limit 0 no state is dispatchable, nobody ever owes anything, and a Pause strands a waiter
+  that saw running ∧ Len() > 0. Before fix 185c5b0 TunePool(2^32) stored 0 (former known finding); now
+  withSafeConcurrency never yields 0 (`Config.safe_concurrency_never_zero`).
   History: before `wPark` got its first guard ("Cond.Wait by the event loop goroutine") the two main
   theorems were false: `exLoopWaits` (now rejected) parked the event-loop goroutine in an idle state.
   The inductive invariant is `Inv` in Proofs/WakeLemmas.lean.
